@@ -14,8 +14,6 @@ from checks.c15 import text, parse_text, run_sharded
 PROP = "C16"
 LEVEL = "proof"
 
-K_MAPIDX = "list-map-index-object-reused"
-K_BSLICE = "byteslice-slice-shares-array"
 
 # ================================================================== the reference containers (oracle)
 # Plain Python lists / dicts / bytearrays with the language's == and <; no backing arrays, no shared index object.
@@ -39,9 +37,7 @@ def req(a, b):
         return kb == "n"
     if ka in "tf":
         return ka == kb
-    if ka == "s":
-        return kb == "s" and a[1] == b[1]
-    if ka == "b":
+    if ka in "sb":
         return kb in "sb" and a[1] == b[1]
     if ka == "L":
         return kb == "L" and len(a[1]) == len(b[1]) and all(req(x, y) for x, y in zip(a[1], b[1]))
@@ -64,9 +60,7 @@ def rcmp(a, b):
         return 0
     if ka in "tf" and kb in "tf":
         return (ka == "t") - (kb == "t")
-    if ka == "s" and kb == "s":
-        return (a[1] > b[1]) - (a[1] < b[1])
-    if ka == "b" and kb in "sb":
+    if ka in "sb" and kb in "sb":
         return (a[1] > b[1]) - (a[1] < b[1])
     if ka == "L" and kb == "L":
         if len(a[1]) != len(b[1]):
@@ -614,16 +608,11 @@ def gen_store_case(r, maxlen, malformed, flavour):
     ops = []
     script_only = False
     n_ops = 4 + r.below(maxlen - 3)
-    poisoned = set()     # results of the known-defective list.map forms: never used again (the reference cannot follow them)
 
     def emit(op):
         nonlocal st
-        if any(isinstance(x, int) and x in poisoned for x in op[1:3]):
-            return True
         alts = ref_step(st, op)
         ops.append(op)
-        if is_escape(op) and alts and alts != "sort-incomparable":
-            poisoned.add(len(st))
         if alts is None or alts == "sort-incomparable":
             return False
         st = alts[-1][1]        # where two answers are acceptable, follow the one the implementation documents (the error)
@@ -917,10 +906,6 @@ def parse_dump(dump):
     return objs
 
 
-def is_escape(op):
-    return op[0] in ("map_idx", "map_pair")
-
-
 def judge_store(ops, line, F, case_text, stats):
     """walk the implementation's observations step by step next to the reference store"""
     steps = line.split(" ;; ")
@@ -965,8 +950,6 @@ def judge_store(ops, line, F, case_text, stats):
             else:
                 exp_out, exp_st = alts[0]
                 known = None
-                if is_escape(op) and out == exp_out and len(st[op[1]][1]) >= 2:
-                    known = K_MAPIDX
                 why = "operation %s: reference answers %s with store [%s], implementation answers %s with store [%s]" % (
                     optext(op), exp_out, dump_store(exp_st), out, dump)
                 clause = "contents equal the reference model"
@@ -995,8 +978,6 @@ def judge_bytes(ops, line, F, case_text, stats):
                   (len(steps), len(ops)), "known": None})
         return
     st = []
-    sliced = set()      # objects that share an array with another one (per the known defect class)
-    parent = {}
     for i, (op, stp) in enumerate(zip(ops, steps)):
         out, _, dump = stp.partition(" # ")
         out, dump = out.strip(), dump.strip()
@@ -1008,13 +989,6 @@ def judge_bytes(ops, line, F, case_text, stats):
             if o2 == out and " , ".join("b=" + b.hex() for b in s2) == dump:
                 ok = s2
                 break
-        if op[0] == "bslice" and out.startswith("R"):
-            k = int(out[1:])
-            root = parent.get(op[1], op[1])
-            parent[k] = root
-            sliced.add(k)
-            sliced.add(op[1])
-            sliced.add(root)
         if ok is not None:
             st = ok
             if out.startswith("E"):
@@ -1023,7 +997,7 @@ def judge_bytes(ops, line, F, case_text, stats):
                 stats["ok_steps"] += 1
             continue
         exp_out, exp_st = alts[0]
-        known = K_BSLICE if (op[0] == "bsetitem" and op[1] in sliced and out == exp_out) else None
+        known = None
         F.append({"clause": "copies and slices are independent of the original", "case": case_text, "step": i, "op": optext(op),
                   "why": ("operation %s: reference answers %s with store [%s], implementation answers %s with store [%s]" % (
                       optext(op), exp_out, " , ".join("b=" + b.hex() for b in exp_st), out, dump))[:700], "known": known})
@@ -1054,7 +1028,7 @@ def judge_string(op, line, F, case_text, stats):
 
 def load_known_ids():
     ids = {}
-    for fn in ("known_findings.a.jsonl", "known_findings.jsonl"):
+    for fn in ("known_findings.jsonl",):
         p = os.path.join(C.VERIF, fn)
         if not os.path.exists(p):
             continue
